@@ -345,14 +345,30 @@ def _axis_scale(ctx, f: FuncInfo, df: DataFlow, anchor: int, kernels, coef_names
         if n.kind == "stmt" and n.ast is not None and any(m is call for m in ast.walk(n.ast)):
             at = n.idx
     ctx.require(at is not None, f"{gs.qualname}: call statement has no CFG node")
-    # sampling variable: second element of the cache key (wavelength, sampling)
-    samp = None
-    for st in walk_no_nested(gs.node):
-        if isinstance(st, ast.Assign) and isinstance(st.targets[0], ast.Tuple) and isinstance(st.value, ast.Name) and \
-                st.value.id in gs.params and len(st.targets[0].elts) == 2 and \
-                all(isinstance(e, ast.Name) for e in st.targets[0].elts):
-            samp = st.targets[0].elts[1].id
-    ctx.require(samp is not None, f"{gs.qualname}: `wavelength, sampling = key` not found")
+    # sampling variable: the 2-vector whose components [0] and [1] the prefactor is built from (a parameter of
+    # _get_new_stencil or an element unpacked from its cache-key parameter)
+    parg0 = b["prefactor"]
+    if isinstance(parg0, ast.Name):
+        d0 = dfg.single_def(at, parg0.id)
+        if d0 is not None and d0.value is not None:
+            parg0 = d0.value
+    comps: dict[str, set] = {}
+    for sub in ast.walk(parg0):
+        if isinstance(sub, ast.Subscript) and isinstance(sub.value, ast.Name) and isinstance(sub.slice, ast.Constant) \
+                and sub.slice.value in (0, 1):
+            comps.setdefault(sub.value.id, set()).add(sub.slice.value)
+    cands = [n_ for n_, cs in comps.items() if cs == {0, 1}]
+    if not cands:  # scalar prefactor built from one name
+        cands = [n_.id for n_ in ast.walk(parg0) if isinstance(n_, ast.Name) and (
+            n_.id in gs.params or any(d_.kind == "assign" for d_ in dfg.reaching(at, n_.id)))][:1]
+    ctx.require(len(cands) == 1, f"{gs.qualname}: cannot identify the sampling vector the prefactor is built from "
+                                 f"(`{norm_text(parg0)[:60]}`)")
+    samp = cands[0]
+    origin_ok = samp in gs.params or any(
+        isinstance(st, ast.Assign) and isinstance(st.targets[0], ast.Tuple) and isinstance(st.value, ast.Name)
+        and st.value.id in gs.params and any(isinstance(e, ast.Name) and e.id == samp for e in st.targets[0].elts)
+        for st in walk_no_nested(gs.node))
+    ctx.require(origin_ok, f"{gs.qualname}: `{samp}` is neither a parameter nor unpacked from the key parameter")
     nzg = FlowNormalizer(dfg, at, call_hook=_scale_hook)
     parg = b["prefactor"]
     if isinstance(parg, ast.Name):
